@@ -714,6 +714,9 @@ pub struct CaseDouble {
     pub double_a: String,
     pub double_b: String,
     pub value: usize,
+    /// another migrating legacy property of the class (with another target) set on the same instance
+    #[serde(default)]
+    pub also: Option<String>,
 }
 
 pub fn double_cases() -> Vec<CaseDouble> {
@@ -723,7 +726,12 @@ pub fn double_cases() -> Vec<CaseDouble> {
         for other in legacy_spellings(&class, &to) {
             if other != legacy && seen.insert((class.clone(), legacy.clone().min(other.clone()), legacy.clone().max(other.clone()))) {
                 for value in 0..legacy_values(&class, &legacy).len().min(4) {
-                    out.push(CaseDouble { class: class.clone(), double_a: legacy.clone(), double_b: other.clone(), value });
+                    out.push(CaseDouble { class: class.clone(), double_a: legacy.clone(), double_b: other.clone(), value, also: None });
+                }
+                for (c2, l2, to2) in migrating_pairs() {
+                    if c2 == class && to2 != to && !legacy_values(&class, &l2).is_empty() {
+                        out.push(CaseDouble { class: class.clone(), double_a: legacy.clone(), double_b: other.clone(), value: 0, also: Some(l2) });
+                    }
                 }
             }
         }
@@ -754,6 +762,11 @@ pub fn judge_double(c: &CaseDouble) -> Vec<(String, String)> {
         } else {
             b = b.with_property(c.double_b.as_str(), vb.1.clone()).with_property(c.double_a.as_str(), va.1.clone());
         }
+        if let Some(l2) = &c.also {
+            if let Some(v2) = legacy_values(&c.class, l2).first() {
+                b = b.with_property(l2.as_str(), v2.1.clone());
+            }
+        }
         let dom = WeakDom::new(InstanceBuilder::new("DataModel").with_child(b));
         let roots = dom.root().children().to_vec();
         let nn = new_name.clone();
@@ -779,7 +792,7 @@ pub fn judge_double(c: &CaseDouble) -> Vec<(String, String)> {
         .unwrap_or_else(|(s, m)| Err(format!("panic at {}: {}", s, m)));
         results.push((format!("write-xml/{}", if a_first { "a-first" } else { "b-first" }), xml));
     }
-    let tag = format!("{}+{}->{}", c.double_a, c.double_b, new_name);
+    let tag = format!("{}+{}->{}{}", c.double_a, c.double_b, new_name, if c.also.is_some() { "|with-another-migration" } else { "" });
     let mut firsts: Option<String> = None;
     for (path, res) in &results {
         match res {
